@@ -9,9 +9,11 @@
 (*   effective periods that contain both days, end after D1, begin on D2   *)
 (*   or have an open start.                                                *)
 (* For every member: the function obligations on every Grid instant of     *)
-(* both days (GridOK) and the timer machine started at Start on D1 and run *)
-(* through D2 (machine invariants).  Sampled members are printed with      *)
-(* their expected value / next-change vectors for replay on the real code. *)
+(* both days (GridOK on the CGrid step for every member, GridOKLiteral on   *)
+(* the Grid step for the sampled ones) and the timer machine created at    *)
+(* each instant of Starts on D1 and run through D2 (machine invariants).   *)
+(* Sampled members are printed with their expected Value / NextChange /    *)
+(* ExactNext vectors for replay on the real code.                          *)
 (* The state space fans out root -> first exception -> full configuration  *)
 (* so that the per-configuration work is spread over TLC's workers.        *)
 (***************************************************************************)
